@@ -1017,7 +1017,9 @@ def list_hook(
         Callable[[List[Primitive]], List[CBORBase]]: An Callable that restores a list of Primitive to a list of
             CBORSerializables.
     """
-    return lambda vals: [cls.from_primitive(v) for v in vals]
+    return lambda vals: (
+        [cls.from_primitive(v) for v in vals] if vals is not None else None
+    )
 
 
 class OrderedSet(list, Generic[T], CBORSerializable):
